@@ -60,6 +60,11 @@ class D(operator.Operator):
     def _apply(self, sm):
         # compute b-matrix for L and T states
         xp = common.get_array_module()
+        kdim = np.shape(sm.k)[-1]
+        if not common.isscalar(self.D) and np.shape(self.D)[-1] != kdim:
+            raise ValueError("Incompatible D and state matrix dimensions")
+        if not common.isscalar(self.k) and np.shape(self.k)[-1] != kdim:
+            raise ValueError("Incompatible k and state matrix dimensions")
         if self.k is None:
             bmatL = compute_bmatrix(self.tau, sm.k)
             bmatT = bmatL
